@@ -138,6 +138,15 @@ def run(replay=None):
             text = ' '.join(keys[k] for k in combo) + ' globally: no a'
             add('P1', P1, 'property', text)
             add('P1', P1, 'specification', text + '\n' + keys['title'] + ' globally: some b')
+    # (b''') extreme number spellings in every position a number can take (magnitudes beyond the floats and the 4300-digit
+    # limit of int(), denormals, exponent forms)
+    NUMS = ['1e309', '2E400', '1e1000', '1e+308', '1e-400', '.5e-324', '9' * 400, '1' + '0' * 5000, '0.' + '0' * 400 + '1', '1e308', '17976931348623157e292',
+            '1.7976931348623157e309', '4.e400', '0e999', '1e0', '00012', '1.', '.0']
+    for nsp in NUMS:
+        for tmpl, entry in (('x > %s', 'expression'), ('x in [0 to %s]', 'condition'), ('xs[%s] > 0', 'condition'), ('{ x in {1, %s} }', 'predicate'),
+                            ('globally: no a {- %s < y} within %s s', 'property'), ('globally: some b within %s ms', 'property'),
+                            ('# id: n1\nglobally: no a {abs(%s) = z}', 'specification')):
+            add('P1', P1, entry, tmpl.replace('%s', nsp))
     # (c) raw unicode / structured noise (the spec only classifies the outcomes)
     chars = ['a', '1', ' ', '{', '}', '(', ')', '"', '\\', '@', '#', '\n', '\t', 'é', '中', '\U0001f600', '\x00', '.', ':',
              '[', ']', '!', '=', '-', '/', '~', '$', '%', "'", '​', 'E', 'e', '+']
